@@ -132,13 +132,20 @@ func (v *Version) Compare(other *Version) int {
 }
 
 // compareRPMVersionString compares two RPM version strings using RPM's rules
-// This implements RPM's version comparison algorithm which alternates between
-// comparing non-numeric and numeric segments
+// This follows rpmvercmp(): the strings are split into maximal alphabetic or numeric
+// segments, everything else being a separator that is skipped; segments are compared
+// pairwise, numeric ones as integers of any length, alphabetic ones by byte order.
+// '~' sorts before everything, even the end of the string; '^' sorts after the end of
+// the string but before any further segment; otherwise the string with segments
+// remaining is newer.
 func compareRPMVersionString(a, b string) int {
-	i, j := 0, 0
+	if a == b {
+		return 0
+	}
 
+	i, j := 0, 0
 	for i < len(a) || j < len(b) {
-		// Skip separators (. + - ~ ^)
+		// Skip separators (anything that is not alphanumeric, '~' or '^')
 		for i < len(a) && isSeparator(rune(a[i])) {
 			i++
 		}
@@ -146,52 +153,99 @@ func compareRPMVersionString(a, b string) int {
 			j++
 		}
 
-		// Extract non-digit segments
-		iStart := i
-		for i < len(a) && !unicode.IsDigit(rune(a[i])) && !isSeparator(rune(a[i])) {
+		// Tilde sorts before anything, including the end of the string
+		aTilde := i < len(a) && a[i] == '~'
+		bTilde := j < len(b) && b[j] == '~'
+		if aTilde || bTilde {
+			if !aTilde {
+				return 1
+			}
+			if !bTilde {
+				return -1
+			}
+			i++
+			j++
+			continue
+		}
+
+		// Caret sorts after the end of the string but before any other segment
+		aCaret := i < len(a) && a[i] == '^'
+		bCaret := j < len(b) && b[j] == '^'
+		if aCaret || bCaret {
+			if i >= len(a) {
+				return -1
+			}
+			if j >= len(b) {
+				return 1
+			}
+			if !aCaret {
+				return 1
+			}
+			if !bCaret {
+				return -1
+			}
+			i++
+			j++
+			continue
+		}
+
+		// If either string ran out, the remaining segments decide below
+		if i >= len(a) || j >= len(b) {
+			break
+		}
+
+		// Extract one numeric or alphabetic segment from each string
+		iStart, jStart := i, j
+		aIsNum := unicode.IsDigit(rune(a[i]))
+		bIsNum := unicode.IsDigit(rune(b[j]))
+		for i < len(a) && isSegmentChar(rune(a[i]), aIsNum) {
 			i++
 		}
-		aNonDigit := a[iStart:i]
-
-		jStart := j
-		for j < len(b) && !unicode.IsDigit(rune(b[j])) && !isSeparator(rune(b[j])) {
+		for j < len(b) && isSegmentChar(rune(b[j]), bIsNum) {
 			j++
 		}
-		bNonDigit := b[jStart:j]
 
-		// Compare non-digit segments lexicographically
-		// Special case: tilde (~) sorts before anything (including empty string)
-		nonDigitCmp := compareRPMNonDigits(aNonDigit, bNonDigit)
-		if nonDigitCmp != 0 {
-			return nonDigitCmp
+		// Segments of different types: the alphabetic one sorts after the numeric one
+		if aIsNum != bIsNum {
+			if aIsNum {
+				return -1
+			}
+			return 1
 		}
 
-		// Extract digit segments
-		iStart = i
-		for i < len(a) && unicode.IsDigit(rune(a[i])) {
-			i++
+		var cmp int
+		if aIsNum {
+			cmp = compareRPMDigits(a[iStart:i], b[jStart:j])
+		} else {
+			cmp = compareRPMNonDigits(a[iStart:i], b[jStart:j])
 		}
-		aDigit := a[iStart:i]
-
-		jStart = j
-		for j < len(b) && unicode.IsDigit(rune(b[j])) {
-			j++
-		}
-		bDigit := b[jStart:j]
-
-		// Compare digit segments numerically
-		digitCmp := compareRPMDigits(aDigit, bDigit)
-		if digitCmp != 0 {
-			return digitCmp
+		if cmp != 0 {
+			return cmp
 		}
 	}
 
-	return 0
+	// All compared segments are equal: whichever has segments remaining is newer
+	if i >= len(a) && j >= len(b) {
+		return 0
+	}
+	if i >= len(a) {
+		return -1
+	}
+	return 1
 }
 
-// isSeparator checks if a character is a separator in RPM versions
+// isSeparator checks if a character is a separator in RPM versions: anything that is
+// neither alphanumeric nor one of the special characters '~' and '^'
 func isSeparator(r rune) bool {
-	return r == '.' || r == '+' || r == '-' || r == '^'
+	return !unicode.IsDigit(r) && !unicode.IsLetter(r) && r != '~' && r != '^'
+}
+
+// isSegmentChar reports whether r continues a numeric (digits) or alphabetic (letters) segment
+func isSegmentChar(r rune, numeric bool) bool {
+	if numeric {
+		return unicode.IsDigit(r)
+	}
+	return unicode.IsLetter(r)
 }
 
 // compareRPMNonDigits compares non-digit segments with RPM-specific rules
@@ -239,7 +293,9 @@ func compareRPMDigits(a, b string) int {
 	}
 
 	// Fallback for very large numbers that don't fit in uint64
-	// Compare by length first (longer number is larger)
+	// Compare by length first (longer number is larger), leading zeros ignored
+	a = strings.TrimLeft(a, "0")
+	b = strings.TrimLeft(b, "0")
 	if len(a) < len(b) {
 		return -1
 	}
